@@ -359,6 +359,7 @@ func (s *simWorld) step(p *simProc, tick int) {
 }
 
 func simRun(in simIn) simOut {
+	vk.Running("sim", in)
 	var out simOut
 	dir, _ := os.MkdirTemp("", "sim")
 	defer os.RemoveAll(dir)
